@@ -454,7 +454,9 @@ func registerModels(P *Program) {
 		}
 		return nil, true
 	}
-	m["runtime.NumCPU"] = func(ex *Exec, fn *ssa.Function, args []Value) (Value, bool) { return smt.I64(4), true }
+	m["runtime.NumCPU"] = func(ex *Exec, fn *ssa.Function, args []Value) (Value, bool) {
+		return smt.I64(int64(ex.Ob.Param("procs", 4))), true
+	}
 	m["runtime.GOMAXPROCS"] = func(ex *Exec, fn *ssa.Function, args []Value) (Value, bool) {
 		return smt.I64(int64(ex.Ob.Param("procs", 4))), true
 	}
@@ -616,6 +618,13 @@ func (ex *Exec) primExt(fn *ssa.Function, args []Value) (Value, bool) {
 	case "vpxKeyXML":
 		n, _ := term(args[0]).ConstInt64()
 		return fmt.Sprintf("VPKEYXML:%d", n), true
+	case "vpxFlawedKeyXML":
+		n, _ := term(args[0]).ConstInt64()
+		f, _ := term(args[1]).ConstInt64()
+		return fmt.Sprintf("VPKEYXML:%d:%d", n, f), true
+	case "vpxPrivKeyXML":
+		f, _ := term(args[0]).ConstInt64()
+		return fmt.Sprintf("VPSKXML:%d", f), true
 	case "vpxWriteTemp":
 		name := fmt.Sprintf("/vp/tmp%d", len(ex.fileContent))
 		ex.fileContent[name] = ex.str(args[0])
